@@ -74,6 +74,8 @@ type Proxy struct {
 	WriteLog      []string // global log of write calls "name key" (for C10 no-write oracle)
 	TotalCalls    int
 	txOpen        bool
+	txID          int
+	OutsideTx     []string // writes issued during an open transaction with a context that does not carry it
 	txSnap        *snapshot
 	TxTrace       []string          // BEGIN / COMMIT / ROLLBACK / ops within tx, per world (reset by executor per request)
 	TxFail        map[string]string // "begin"|"commit"|"rollback" -> error kind to inject once
@@ -93,7 +95,23 @@ func NewProxy(m *storage.MemoryStore, variant string) *Proxy {
 	return p
 }
 
+// txCtxKey: the transaction travels in the context BeginTX returns (as with database/sql-backed stores): a statement issued
+// with a context that does not carry it runs outside the transaction - the database applies it on its own and a later
+// rollback does not undo it.
+type txCtxKey struct{}
+
 func (p *Proxy) do(ctx context.Context, name string, keys []string, req fosite.Requester, write bool, fn func() error) error {
+	if p.txOpen && write && name != "BeginTX" && name != "Commit" && name != "Rollback" {
+		if id, _ := ctx.Value(txCtxKey{}).(int); id != p.txID {
+			// auto-commit semantics: apply the write to the pre-transaction state as well, so that it survives a rollback
+			p.OutsideTx = append(p.OutsideTx, name)
+			live := p.snap()
+			p.restore(p.txSnap)
+			_ = fn()
+			p.txSnap = p.snap()
+			p.restore(live)
+		}
+	}
 	t := TaskOf(ctx)
 	ci := &CallInfo{Task: t, Name: name, Keys: keys, Req: req, Write: write}
 	if t != nil {
@@ -501,6 +519,8 @@ func (t *TxProxy) BeginTX(ctx context.Context) (context.Context, error) {
 		}
 		p.txSnap = p.snap()
 		p.txOpen = true
+		p.txID++
+		out = context.WithValue(ctx, txCtxKey{}, p.txID)
 		p.TxTrace = append(p.TxTrace, "BEGIN")
 		return nil
 	})
